@@ -47,6 +47,9 @@ Second part (Model/C12Ext.lean):
       | {"k":"set_nevents","o":..,"n":q,"incl":bool} | {"k":"nevents","o":..,"incl":bool}
       | {"k":"add","x":..,"y":..,"w":q,"rel":q,"abs":q}   (the sum becomes "c"), ..]}
       -> {"obs":[{"r":q}|{"ok":true}|{"e":name},..],"final":{"a":hist|null,"b":hist|null,"c":hist|null}}
+  {"op":"gchain","src":{"g":graph}|{"h2g":{"h":hist,"mv":..,"mode":str,"fields":names,"scale":..}},"g2":graph|null,
+   "steps":[{"k":"scale","s":q}|{"k":"get"}|{"k":"rows"}|{"k":"add"},..]}
+      -> {"e":name,"phase":"init"} | {"obs":[{"ok":true}|{"e":name}|{"r":q|null}|{"rows":..},..],"final":gstate}
 Specification vocabulary (Model/C12Spec.lean), compared by the harness with Python reference computations:
   {"op":"spec_hist","h":hist,"ranges":ranges|null}
       -> {"wf":bool,"valid":bool,"nonempty_axes":bool,"index_prod":[[n..]..],"cells":[{"idx","in_range","edges","row"}..],
@@ -257,6 +260,34 @@ def runChain (env : ChainEnv) : List Json → ChainEnv × List Json
     let (env1, ob) := chainStep env st
     let (env2, obs) := runChain env1 rest
     (env2, ob :: obs)
+
+/-- one step of a chain on a graph: `scale(s)`, `scale()`, `+ g2`, `rows()` -/
+def gchainStep (g : Graph) (g2 : Option Graph) (st : Json) : Graph × Json :=
+  match str? (getD st "k") with
+  | some "scale" =>
+    match rat? (getD st "s") with
+    | some s =>
+      match graphSetScale g s with
+      | .ok g1 => (g1, Json.mkObj [("ok", Json.bool true)])
+      | .error er => (g, excObj er)
+    | none => (g, err "bad scale step")
+  | some "get" => (g, Json.mkObj [("r", optNumJson g.scale)])
+  | some "rows" => (g, Json.mkObj [("rows", rowsJson g.rows)])
+  | some "add" =>
+    match g2 with
+    | some b =>
+      match graphAdd g b with
+      | .ok g1 => (g1, Json.mkObj [("ok", Json.bool true)])
+      | .error er => (g, excObj er)
+    | none => (g, err "no second graph")
+  | _ => (g, err "unknown step")
+
+def runGChain (g : Graph) (g2 : Option Graph) : List Json → Graph × List Json
+  | [] => (g, [])
+  | st :: rest =>
+    let (g1, ob) := gchainStep g g2 st
+    let (gf, obs) := runGChain g1 g2 rest
+    (gf, ob :: obs)
 
 def handle (j : Json) : Json :=
   match str? (getD j "op") with
@@ -499,6 +530,28 @@ def handle (j : Json) : Json :=
                   ("index_prod", ofList (ofList ofNat) (NArr.indexProd (h.nbins.map List.range))),
                   ("cells", ofList cellJ cs), ("valid_ranges", vr), ("selected", sel)]
     | _, _ => err "bad spec_hist args"
+  | some "gchain" =>
+    let src := getD j "src"
+    let hj := getD src "h2g"
+    let g0 : Option (Except Err Graph) :=
+      if !hj.isNull then
+        match parseHist (getD hj "h"), makeValueOf (getD hj "mv"), str? (getD hj "mode"), parseNames (getD hj "fields"),
+              parseScaleArg (getD hj "scale") with
+        | some h, some mv, some mode, some fields, some sc => some ((histToGraph h mv (modeOf mode) fields sc).map (·.2))
+        | _, _, _, _, _ => none
+      else parseGraph (getD src "g")
+    let g2 : Option (Option (Except Err Graph)) :=
+      if (getD j "g2").isNull then some none else (parseGraph (getD j "g2")).map some
+    match g0, g2, arr? (getD j "steps") with
+    | some (.error er), _, _ => Json.mkObj [("e", exc er), ("phase", Json.str "init")]
+    | some (.ok g), some none, some steps =>
+      let (gf, obs) := runGChain g none steps.toList
+      Json.mkObj [("obs", Json.arr obs.toArray), ("final", gstateJson gf)]
+    | some (.ok g), some (some (.ok b)), some steps =>
+      let (gf, obs) := runGChain g (some b) steps.toList
+      Json.mkObj [("obs", Json.arr obs.toArray), ("final", gstateJson gf)]
+    | some (.ok _), some (some (.error er)), _ => Json.mkObj [("e", exc er), ("phase", Json.str "init")]
+    | _, _, _ => err "bad gchain args"
   | some "chain" =>
     let optHist (x : Json) : Option (Option Hist) := if x.isNull then some none else (parseHist x).map some
     match optHist (getD j "a"), optHist (getD j "b"), arr? (getD j "steps") with
